@@ -1,7 +1,9 @@
 """Which contract modules decide which property, and what each check claims."""
 
 NOTES = ('All checks are ./check <id>; each rebuilds a source-only overlay from /repo working tree, re-extracts the functions under contract '
-         'and regenerates every obligation.  Bounded stand-ins are reported separately in each evidence file and never counted as proved.')
+         'and regenerates every obligation.  Bounded stand-ins are reported separately in each evidence file and never counted as proved.  '
+         'Known findings: /verif/known_findings.json (open findings matched by obligation id [+ path labels]; "fixed:" entries name the fix: commits in /repo '
+         'and suppress nothing).  Seeded changes used to test the checks: /verif/seeded/.  Exit codes: 0 held, 1 violation, 2 undecided, 3 checker problem / vacuity.')
 
 NOT_CLAIMED = {}
 
